@@ -214,6 +214,53 @@ def pipeline_probe(ctx, rng):
             ctx.fail("fuzzy_simplicial_set:directed_memberships", bad, desc)
 
 
+def fit_cut_probe(ctx, rng):
+    """UMAP.fit with a finite disconnection_distance that cuts some but not all neighbours of many samples, the kNN tables being supplied by
+    the caller (precomputed_knn) or coming from a precomputed distance matrix: graph_ must be the fuzzy union of the memberships the two
+    kernels assign on the CUT table (cut entries infinite: they take no part in the calibration) -- i.e. every sample's kept strengths are
+    calibrated to log2(k) over the kept neighbours, not over the k listed ones"""
+    import umap, umap.umap_ as U, scipy.sparse as sp_
+    for rep in range(2 if ctx.tier == "quick" else 8):
+        npr = np.random.RandomState(rng.randrange(2 ** 31))
+        n, dim, k = rng.randint(50, 80), rng.randint(2, 4), rng.randint(6, 10)
+        X = (npr.normal(size=(n, dim)) * 10 ** rng.uniform(-1, 1)).astype(np.float32)
+        D = np.sqrt(((X.astype(np.float64)[:, None] - X.astype(np.float64)[None]) ** 2).sum(-1)).astype(np.float32)
+        np.fill_diagonal(D, 0.0); D = np.minimum(D, D.T)
+        idx = np.empty((n, k), dtype=np.int64)
+        for i in range(n):
+            idx[i] = [i] + [int(j) for j in np.argsort(D[i], kind="stable") if j != i][:k - 1]
+        dist = np.take_along_axis(D, idx, axis=1).astype(np.float32)
+        vals = np.unique(dist[:, 1:]); q = int(len(vals) * rng.uniform(0.55, 0.8))
+        t = float((float(vals[q]) + float(vals[q + 1])) / 2)            # strictly between two table values: no tie with the threshold
+        cut = dist >= t
+        cd, ci = np.where(cut, np.inf, dist).astype(np.float32), np.where(cut, -1, idx)
+        partial = int(((cut.sum(1) > 0) & (cut.sum(1) < k - 1)).sum())
+        for how in ("precomputed_knn", "precomputed_metric"):
+            desc = dict(api="UMAP.fit", how=how, X=X, k=k, disconnection_distance=t, rows_partially_cut=partial)
+            try:
+                kw = dict(n_neighbors=k, disconnection_distance=t, random_state=1, n_epochs=0)
+                if how == "precomputed_knn":
+                    m = umap.UMAP(precomputed_knn=(idx.copy(), dist.copy()), **kw).fit(X.copy())
+                else:
+                    m = umap.UMAP(metric="precomputed", **kw).fit(D.copy())
+                G = np.asarray(m.graph_.todense()).astype(np.float64)
+                sig, rho = U.smooth_knn_dist(cd.copy(), float(k), local_connectivity=1.0)[:2]
+                r_, c_, v_ = U.compute_membership_strengths(ci.copy(), cd.copy(), sig, rho)[:3]
+                A = np.asarray(sp_.coo_matrix((v_, (r_, c_)), shape=(n, n)).todense()).astype(np.float64)
+            except Exception as e:
+                ctx.fail("UMAP.fit:raises:cut_tables", "%s: %s" % (type(e).__name__, str(e)[:160]), desc); continue
+            want = A + A.T - A * A.T
+            ctx.evaluations += n
+            ctx.tag(("fitcut", rep, how, X.tobytes()), ["fit_with_cut_tables", how] + (["rows_partially_cut"] if partial else []))
+            dev = np.abs(G - want)
+            if dev.max() > 1e-5:
+                i, j = np.unravel_index(int(dev.argmax()), dev.shape)
+                tot = A[i].sum()
+                ctx.fail("UMAP.fit.graph_:not_the_union_of_memberships_on_the_cut_table:%s" % how,
+                         "graph_[%d,%d] = %r, the memberships calibrated on the cut table give %r (sample %d keeps %d of %d listed neighbours; its calibrated total is %.4f, log2(k) = %.4f)"
+                         % (i, j, G[i, j], want[i, j], i, int((~cut[i]).sum()) - 1, k - 1, tot, np.log2(k)), desc)
+
+
 def run(ctx):
     ctx.check_proofs(["prop/P_C01.v"])
     # translation tie: Gallina regenerated from the current umap/umap_.py; link theorems (coq/link/L_knn.v) re-checked:
@@ -299,6 +346,7 @@ def run(ctx):
                 field = {1: "rho", 2: "sigma finite/positive", 3: "strengths", 4: "floor"}.get(code % 10, "?")
                 ctx.diff(cases[s + off], "row %d: %s" % (code // 10, field))
     pipeline_probe(ctx, rng)
+    fit_cut_probe(ctx, rng)
     return ctx.finish(RULE, assumptions=["float32 arithmetic / fastmath of the compiled kernel is observed, not modelled (strength tolerance %g)" % SATOL,
                                            "rows whose floor(lc)-th non-zero entry is infinite (rho = inf) are not generated",
                                            "link theorem for smooth_knn_dist: finite tables only (NPY_INFINITY is the generated function's argument pinf > 2^n_iter); "
